@@ -90,8 +90,46 @@ def closure(prog: Program, idx: Dict[str, FnInfo], roots: Iterable[str]) -> List
 # set-typed expressions
 # ---------------------------------------------------------------------------------------
 
+def _set_typed_params(prog: Program) -> Dict[Tuple[str, str], str]:
+    """(function or class name, parameter) -> description of a call site in the package that passes a set / frozenset for it.
+    The order in which the callee then iterates that parameter is the hash order of the caller's set."""
+    cache = prog.__dict__.get("_set_typed_params")
+    if cache is not None:
+        return cache
+    prog.__dict__["_set_typed_params"] = {}       # (re-entrancy: _set_typed_names consults this table)
+    out: Dict[Tuple[str, str], str] = {}
+    idx = index_functions(prog)
+    by_name: Dict[str, List[FnInfo]] = {}
+    for q, g in idx.items():
+        by_name.setdefault(g.qual.split(".")[-1], []).append(g)
+        if g.qual.endswith(".__init__") and g.cls is not None:
+            by_name.setdefault(g.cls.name, []).append(g)
+    for q, g in idx.items():
+        ls = _set_typed_names(prog, g)
+        for n in ast.walk(g.node):
+            if not isinstance(n, ast.Call):
+                continue
+            nm = n.func.id if isinstance(n.func, ast.Name) else n.func.attr if isinstance(n.func, ast.Attribute) else None
+            for callee in by_name.get(nm or "", []):
+                a = callee.node.args
+                pos = [p.arg for p in a.posonlyargs + a.args]
+                if callee.cls is not None and pos and not any(ast.unparse(d).endswith("staticmethod") for d in callee.node.decorator_list):
+                    pos = pos[1:]
+                for i, arg in enumerate(n.args):
+                    if not isinstance(arg, ast.Starred) and i < len(pos) and is_set_expr(prog, g, arg, ls):
+                        out[(callee.qual, pos[i])] = f"{g.qual}: {norm(n)[:60]}"
+                for kw in n.keywords:
+                    if kw.arg and is_set_expr(prog, g, kw.value, ls):
+                        out[(callee.qual, kw.arg)] = f"{g.qual}: {norm(n)[:60]}"
+    prog.__dict__["_set_typed_params"] = out
+    return out
+
+
 def _set_typed_names(prog: Program, f: FnInfo) -> Set[str]:
     names: Set[str] = set()
+    for (q_, p_), _w in prog.__dict__.get("_set_typed_params", {}).items():
+        if q_ == f.qual:
+            names.add(p_)
     changed = True
     while changed:
         changed = False
@@ -118,6 +156,8 @@ def is_set_expr(prog: Program, f: FnInfo, e: ast.expr, local_sets: Set[str]) -> 
         return True
     if isinstance(e, ast.Call) and isinstance(e.func, ast.Name) and e.func.id in ("set", "frozenset"):
         return True
+    if isinstance(e, ast.IfExp):
+        return is_set_expr(prog, f, e.body, local_sets) or is_set_expr(prog, f, e.orelse, local_sets)
     if isinstance(e, ast.Call) and isinstance(e.func, ast.Attribute) and e.func.attr in ("union", "intersection", "difference", "symmetric_difference", "copy") \
             and is_set_expr(prog, f, e.func.value, local_sets):
         return True
@@ -141,6 +181,7 @@ def is_set_expr(prog: Program, f: FnInfo, e: ast.expr, local_sets: Set[str]) -> 
 
 def set_iteration_sites(prog: Program, f: FnInfo) -> List[Tuple[ast.AST, str]]:
     out: List[Tuple[ast.AST, str]] = []
+    _set_typed_params(prog)
     ls = _set_typed_names(prog, f)
     parents: Dict[int, ast.AST] = {}
     for n in ast.walk(f.node):
@@ -210,7 +251,42 @@ def cache_decorators(f: FnInfo) -> List[str]:
         t = ast.unparse(d)
         if t.split("(")[0].split(".")[-1] in ("lru_cache", "cache", "cached_property"):
             out.append(t)
+        elif _is_home_made_memoizer(f.mod, d):
+            out.append(t)
     return out
+
+
+def _is_home_made_memoizer(mod: Module, d: ast.expr) -> bool:
+    """A decorator defined in the package itself whose wrapper keeps results in a container of the enclosing call:
+    `def deco(fn): cache = {}; def wrapper(*a, **k): ... cache[key] = fn(...) ...; return wrapper`."""
+    name = d.func if isinstance(d, ast.Call) else d
+    if not isinstance(name, ast.Name):
+        return False
+    fn = mod.functions.get(name.id)
+    if fn is None:
+        return False
+    containers = set()
+    for st in fn.body:
+        tg = st.targets[0] if isinstance(st, ast.Assign) and len(st.targets) == 1 else st.target if isinstance(st, ast.AnnAssign) and st.value is not None else None
+        val = getattr(st, "value", None)
+        if isinstance(tg, ast.Name) and (isinstance(val, (ast.Dict, ast.List, ast.Set)) or
+                                         (isinstance(val, ast.Call) and isinstance(val.func, ast.Name) and val.func.id in ("dict", "list", "set", "OrderedDict", "defaultdict"))):
+            containers.add(tg.id)
+    if not containers:
+        return False
+    for inner in fn.body:
+        if not isinstance(inner, ast.FunctionDef):
+            continue
+        for n in ast.walk(inner):
+            if isinstance(n, (ast.Assign, ast.AugAssign)):
+                for t in (n.targets if isinstance(n, ast.Assign) else [n.target]):
+                    for sub in ast.walk(t):
+                        if isinstance(sub, ast.Subscript) and isinstance(sub.value, ast.Name) and sub.value.id in containers:
+                            return True
+            if isinstance(n, ast.Call) and isinstance(n.func, ast.Attribute) and isinstance(n.func.value, ast.Name) and n.func.value.id in containers \
+                    and n.func.attr in ("setdefault", "append", "add", "update", "__setitem__"):
+                return True
+    return False
 
 
 def global_state_sites(prog: Program, idx: Dict[str, FnInfo], f: FnInfo, allowed: Set[str]) -> List[Tuple[ast.AST, str, str]]:
